@@ -1201,13 +1201,15 @@ func (vc *VC) cutLoop(fr *Frame, li *loopInfo, entrySt *State, entryPC string, i
 	li.preSt = entrySt.clone()
 	li.allocPre = vc.heapGet(entrySt, "ALLOC").S
 	env := vc.envAt(fr, entrySt)
+	var provedEntry []string
 	for i, inv := range li.spec.Invs {
 		g := vc.evalBool(env, inv.Expr)
 		lab := inv.Label
 		if lab == "" {
 			lab = fmt.Sprint(i)
 		}
-		vc.oblige(fmt.Sprintf("loop%d.entry", li.ordinal), lab, entryPC, g, h.Instrs[0].Pos(), inv.Src)
+		vc.oblige(fmt.Sprintf("loop%d.entry", li.ordinal), lab, entryPC, mkImp(mkAnd(provedEntry...), g), h.Instrs[0].Pos(), inv.Src)
+		provedEntry = append(provedEntry, vc.define("inv", SBool, g))
 	}
 	// 2. havoc
 	ms := vc.loopModSet(fr, li)
@@ -1437,7 +1439,7 @@ func (vc *VC) globalSym(st *State, g *ssa.Global) Sym {
 				cv := vc.constVal(gc.val.Value, et)
 				vc.emit("(assert (= " + name + " " + cv.S + "))")
 			case "sentinel":
-				vc.emit(fmt.Sprintf("(assert (and (> %s 0) (< %s %s) (= (rootof %s) %s) (= (refkind %s) (- %d))))", name, name, q("H0 ALLOC"), name, name, name, 100000+vc.eng.globalIndex(g)))
+				vc.emit(fmt.Sprintf("(assert (and (> %s 0) (< %s %s) (= (rootof %s) %s) (= (refkind %s) (- %d)) (= (dyntype %s) %d)))", name, name, q("H0 ALLOC"), name, name, name, 100000+vc.eng.globalIndex(g), name, vc.eng.typeTag(types.NewPointer(types.Typ[types.Invalid]))))
 			default:
 				switch et.Underlying().(type) {
 				case *types.Pointer, *types.Map, *types.Interface, *types.Chan:
